@@ -28,7 +28,7 @@ PLAN = {
         'units': ['fixed_pkv_common', 'fixed_reph', 'fixed_session', 'layout', 'layout_get', 'rank', 'util', 'phon', 'pmeth', 'data', 'split'],
         'technique': 'Verus built-in safety obligations (unwrap/index/slice/overflow/termination) on extracted real functions under data-structure invariants',
         'claim': 'Every extracted riti function (both methods, Rank/Suggestion, layout, utility) is proved free of panics, failed unwraps, out-of-bounds or off-boundary slices, arithmetic overflow and non-termination for ALL inputs satisfying the stated invariants (ASCII buffer, memo transparency, in-range commit index), and every API operation is proved to re-establish those invariants; keys without a character are ignored; a memo entry is proved to hold the direct hits of its word only, so the suffix pass multiplies lists whose size does not depend on the history.',
-        'note': COMMON_TRUST + 'Not decided: panics inside okkhor/regex/poriborton/emojicon, sort panic-freedom for non-total comparators, RefCell double borrow, time complexity beyond termination; T2 functions (search_dictionary, include_from_dictionary) only have assumed contracts here; internal_backspace_step is proved in unit fixed_reph (std contracts for Take::fold, String::len / truncate in byte offsets are T3); SplittedString::split is proved in unit split (std/UTF-8 facts about str::find with a closure, char_indices, split_at offsets are T3 axioms listed in the trusted base).',
+        'note': COMMON_TRUST + 'Not decided: panics inside okkhor/regex/poriborton/emojicon, sort panic-freedom for non-total comparators, RefCell double borrow, time complexity beyond termination; T2 functions (search_dictionary, include_from_dictionary) only have assumed contracts here; internal_backspace_step is proved in unit fixed_reph (std contracts for Take::fold, String::len / truncate in byte offsets are T3); SplittedString::split is proved in unit split (std contracts of str::find with a closure and char_indices are T3; the UTF-8 offset facts are proved from vstd::utf8).',
     },
     'C02': {
         'bounded': ['phonetic_api', 'fixed_api'],
@@ -44,7 +44,7 @@ PLAN = {
         'units': ['layout', 'util', 'phon', 'pmeth', 'split'],
         'technique': 'Verus: keycode_to_char == riti.h table; suggest_only_phonetic == avro(p)+avro(w)+avro(t) over split_spec; statement-level split lemmas',
         'claim': 'Proof that the key-to-character table equals the one derived from riti.h, that the buffer is exactly the typed characters, that with suggestions off the result is avro(leading)+avro(word)+avro(trailing) for the three-way split, with lemmas turning the split spec into the statement wording (word over letters/digits wrapped in punctuation), and that with suggestions on that transliteration (modulo curling) is pushed into the list.',
-        'note': COMMON_TRUST + 'okkhor (avro) is an uninterpreted function; SplittedString::split is proved equal to split_spec in unit split (real body: closure find, right-to-left char_indices loop with escape/colon automaton, both split_at calls on proved char boundaries); what stays assumed there are std/UTF-8 facts (str::find with a closure returns the byte offset of the first accepted code point, char_indices yields (offset, code point), cutting bytes at a code-point offset cuts the code points there); the bounded check split stays as a cross-check of those axioms.',
+        'note': COMMON_TRUST + 'okkhor (avro) is an uninterpreted function; SplittedString::split is proved equal to split_spec in unit split (real body: closure find, right-to-left char_indices loop with escape/colon automaton, both split_at calls on proved char boundaries); what stays assumed there are two std contracts (str::find with a closure returns the byte offset of the first accepted code point; char_indices yields (offset, code point) and is a well-behaved iterator); the UTF-8 facts (offsets of code points are char boundaries, cutting the bytes there cuts the code points there, str::len is the offset of the end) are PROVED from vstd::utf8 (encode / decode lemmas); the bounded check split stays as a cross-check of the two std contracts.',
     },
     'C04': {
         'bounded': ['layout_values', 'update_engine'], 'kani': ['k_modifiers_plane'],
